@@ -37,6 +37,47 @@ CHECKS["C12"] = dict(
     note="Trusted: TLC; the interval monoid as representative of associative non-commutative operations; for "
          "LieTensors the library's own binary product (decided by C03) and exactness of IEEE arithmetic on the lattice.")
 
+CHECKS["C09"] = dict(
+    cat="model_checking", ref="DESIGN.md §5 C09",
+    technique="TLA+ spec Kernels.tla (FastTriggs/Triggs/per-group selection and Huber over exact rationals) model-checked "
+              "by TLC on every enumerated instance; trace validation (KernelsTrace.tla) of the values returned by the real "
+              "correctors, GN/LM steps and kernels; spec->code table (KernelsGen.tla) of both identity sides",
+    text="TLC checks on every instance of a rational lattice (shapes N<=2, d<=3, P<=3; rho' in rational squares; rho'' "
+         ">0/=0/<0 with rational alpha; 118k states quick, 2.9M thorough) that FastTriggs, Triggs and any per-group mixture "
+         "satisfy J'^T R' = sum rho' J_i^T R_i, that Triggs gives the full robust Hessian on rows with rho''>0, R_i!=0 and "
+         "equals FastTriggs elsewhere, that alpha is the documented root, and Huber's two-piece form with continuity of "
+         "value and slope, monotonicity and rejection of negative input. The real FastTriggs/Triggs are run on user "
+         "polynomial kernels engineered so that all outputs are exact dyadics (d=1..6, ten batch shapes, zero residuals, "
+         "rho''>0/=0/<0, float64/float32) and TLC evaluates both sides of both identities on the RETURNED values; real "
+         "GN/LM steps are observed at the solver (per-group kernel/corrector selection, reported loss, descent direction); "
+         "Huber is validated exactly on perfect squares incl. the threshold; the seven kernels are compared with 50-digit "
+         "closed forms on a grid (a/|b|<=50) and TLC judges the integer errors, finiteness, zero at zero, monotonicity and "
+         "negative-input rejection; TLC-tabulated identity sides for irrational-root instances are replayed on the code.",
+    note="Trusted: TLC; exactness of IEEE arithmetic on the chosen dyadic lattice (outputs within 64 eps are snapped); "
+         "mpmath for the closed forms, with the error unit eps x largest intermediate of the documented formula "
+         "(tolerances are constants of Kernels.tla). Not judged: which root alpha is taken, rho'=0 with rho''>0, weights, "
+         "sparse LM. Found and repaired (notes/C09.fix.diff): Triggs drops R in the rho''>0 branch; Triggs raises for "
+         "kernels with constant rho' (Scale, linear); Scale accepts negative input.")
+
+CHECKS["C03"] = dict(
+    cat="model_checking", ref="DESIGN.md §5 C03",
+    technique="TLA+ specs LieExact.tla/LieGroupMC.tla (exact dyadic semantics of the four groups, ghost matrix) "
+              "model-checked by TLC over the Hurwitz/integer/2^k lattice; trace validation (LieTrace.tla) of real "
+              "LieTensor results, exact; tlc -simulate behaviours replayed on a real LieTensor",
+    text="TLC reaches every element of the lattice box (24 Hurwitz unit quaternions x integer translations x 2^k "
+         "scales) of each group type by histories of @ (left/right), Inv and Retr from a generating set and checks "
+         "in every state: matrix() homomorphism (ghost matrix kept by matrix products only), blocks = rotation/"
+         "translation/scale, unit quaternion and positive scale, two-sided inverse, neutral identity, Act on 3- and "
+         "4-vectors (incl. w=0) equals the matrix action and composes, associativity. The real @, *, Inv, Act, "
+         "matrix, rotation, translation, scale and identity constructors are run on lattice batches (float32 and "
+         "float64) and TLC recomputes every result from the specification and compares exactly (quaternion modulo "
+         "sign); behaviours generated by TLC are stepped through one real LieTensor (Retr and add_ alternating) with "
+         "the element and its matrix compared after every action; 2 000-10 000-step mixed histories on generic "
+         "floats are checked for unit-norm drift <= 8 n eps and positive scale.",
+    note="Trusted: TLC, exactness of IEEE arithmetic on the lattice (values within 64 eps of the 2^-12 grid are "
+         "snapped). Generic (irrational) elements are only checked for validity drift here; their accuracy is the "
+         "business of C01/C02/C05.")
+
 REASON_TODO = "check not built yet in this session (planned, see DESIGN.md §5); nothing is claimed for it"
 
 
